@@ -9,49 +9,60 @@ CLAIMED = {
     'C01': ('exploration', '5 C01',
             'seeded search over conformant physical layouts (SUL, segmentation, padding, checksums, trailing lengths, packing into visible records) built by an '
             'independent producer and read back by the real sequential reader through a simulated, access-logged disk; the fault-free base case of the C02 simulation',
-            'degenerate schedule/fault dimension (one sequential reader, no injected fault: the statement covers conformant files); trusts worlds/dlis_phys.py, '
+            'no injected stored-byte fault (the statement covers conformant files); schedules and histories: a second reader interleaved record by record under an '
+            'explicit schedule, other operations on the same reader before and during the scan, the reader re-entered on replaced content, file objects of several kinds '
+            'and states, paths in several spellings, process environment (time zone, logging, python -O, warnings, LC_TIME); trusts worlds/dlis_phys.py, '
             'cross-validated by an independent reference reader on every scenario and on the bundled example files',
-            'deterministic simulation (seeded layouts on a simulated disk), fault-free base case of C02'),
+            'deterministic simulation (seeded layouts and caller histories on a simulated disk), base case of C02'),
     'C02': ('exploration', '5 C02',
             'seeded search over histories of fetches (whole, offset/length, by position), scans, validate() and legal failing calls on one shared-cursor index over a '
             'simulated disk; every fetch checked against the sequential read of the same run, every read against the visible records of the fetched record',
-            'sampling, not enumeration; trusts the producer and SimFile honouring the buffered-file contract; no fault between operations (no property says what a reader '
-            'owes its caller then)',
+            'sampling, not enumeration; trusts the producer and SimFile honouring the buffered-file contract; no stored-byte fault between operations (no property says '
+            'what a reader owes its caller then); also: pickle restart on replaced files, a second index interleaved, file-object kinds and states, environment dimensions',
             'deterministic simulation: seeded operation histories on a simulated disk, reference-model and I/O-footprint oracles'),
     'C04': ('exploration', '5 C04',
             'seeded search over populate histories (full / slice / sample / channel subsets / failing calls, mixed with raw fetches on the same cursor) on logical files '
             'with interleaved frame types, checked bit-for-bit against the content model and for independence from earlier operations',
-            'sampling; VSINGL and NaN/denormal patterns left out; multi-dimensional elements compared in recorded order',
+            'sampling; VSINGL and NaN/denormal patterns left out; multi-dimensional elements compared in recorded order; also: reused set / selector objects, a second '
+            'index interleaved, waveforms up to 1100 elements, frame types without index channel, stuck frame numbers, environment dimensions',
             'deterministic simulation: seeded populate histories over reused numpy storage and a shared cursor'),
     'C05': ('exploration', '5 C05',
             'seeded search over interleavings of read(n)/skip(n)/read-rest/skip-rest/next-record/seek/rewind/tell on the stateful physical-record reader (plain, TIF, '
             'reversed TIF, all trailer options, foreign chunking) against a cursor model with attributable payloads; the real writer and strip_tif against the producer',
-            'checksum values and record-number start are not compared (algorithm / convention not available offline)',
+            'checksum VALUES are compared against a reference validated by the 110 checksum trailers of the repository field file (this found defect 0b358cb); the '
+            'record-number start is not compared; also: a second reader interleaved, a second writer on the same stream, path + separate file id, mode attribute flavours',
             'deterministic simulation: seeded reader histories against a reference cursor model on a simulated disk'),
     'C06': ('exploration', '5 C06',
             'seeded search over load histories (slice x channel subset x reused list) on indexed LIS files with direct/indirect X, samples, bursts, irregular records, '
             'TIF and foreign chunking; frames, implied X values, index entries and the I/O footprint checked against the content model',
-            'sampling; dipmeter codes and code 50 negative exponents left out; one known finding (KF-C06-1)',
+            'sampling; dipmeter codes and code 50 negative exponents left out; one known finding (KF-C06-1); also: alternate and second log passes, spacing in other '
+            'units than X, up to 40 channels, slices past the end, a second file interleaved, environment dimensions',
             'deterministic simulation: seeded load histories with reference-model and I/O-footprint oracles'),
     'C12': ('exploration', '5 C12',
             'the real sequential driver, the real pooled driver under a simulated process pool (seeded worker count, task assignment, interleaving at every '
             'file-system call, clock skew) and every file alone, on identical trees mixing healthy, damaged and foreign files; results and output trees compared',
-            'SimPool models fork + chunk size 1; scheduling points are file-system calls; output-side I/O errors not injected; two known findings (KF-C12-1, 1b)',
+            'SimPool models fork + chunk size 1; scheduling points are file-system calls; output-side I/O errors not injected; failing allocations under the simulated '
+            '4 GiB address space are tracked and relax the comparison for damaged files only; two known findings (KF-C12-1, 1b); also: sibling inputs, symbolic and '
+            'dangling links, output directory inside the input tree, relative paths, value / length / record-level faults, environment dimensions',
             'deterministic simulation with fault injection: simulated process pool + seeded schedules + stored-byte faults'),
     'C20': ('fault_enumeration', '5 C20',
             'for each seeded healthy base file of every format the fault set is enumerated over the layout map (truncation at every structural boundary +-1, bit '
             'flips in header bytes and length/type fields, plus seeded other kinds and random byte strings); each member is identified under a deterministic step budget '
             'and the file object state is checked afterwards',
-            'enumeration is over structural positions of sampled base files, not over all byte strings; one known finding (KF-C20-1)',
+            'enumeration is over structural positions of sampled base files, not over all byte strings; one known finding (KF-C20-1); also: token substitutions and '
+            'stretches in text formats, value / length / record-level faults, reused file objects, 7 MB files through path and object, a processor-time quota next to '
+            'the step budget',
             'fault enumeration inside the deterministic simulator: stored-byte faults, step budget, simulated file'),
     'C11': ('exploration', '5 C11',
             'the single-file conversions of the C12 simulation (fresh process, simulated clock and file system) on healthy generated RP66V1, LIS and BIT files with swarm '
             'configurations; the LAS output is parsed independently and compared with the content model (rows, columns, values, STRT/STOP/STEP)',
-            'degenerate schedule/fault dimension (single process, no fault); content oracle shares the producers with C04/C06',
+            'single process, no stored-byte fault; histories: the same path converted before with other bytes of the same size; environment dimensions; content oracle '
+            'shares the producers with C04/C06; nine known findings (KF-C11-1..9)',
             'deterministic simulation (simulated file system and clock), second oracle on the C12 single-file runs'),
     'C14': ('fault_enumeration', '5 C14',
             'for each seeded DAT model: fault-free parse against the model, then every applicable single-line corruption of every line with a model-derived expected outcome',
-            'closed corruption list (those whose outcome the statement leaves open are not generated)',
+            'closed corruption list (those whose outcome the statement leaves open are not generated); also: real text file objects in several states, 17..34 MB '
+            'texts, environment dimensions (time zone, LC_TIME, warnings, python -O)',
             'fault enumeration: every single-line stored-text fault of each sampled base file'),
 }
 NA = {
